@@ -66,6 +66,7 @@ type vfCase struct {
 	broken   bool // the history left the WriteScheduler contract: oracle off
 	// C13 bookkeeping
 	c13        bool
+	refToggle  bool // reference prioritizeIncremental: flips exactly at Pops that find the control FIFO empty
 	lastNonInc [8]uint32
 	skipped    map[uint32]int
 	skipBound  map[uint32]int
@@ -429,7 +430,7 @@ func (c *vfCase) run(t []string, op string, o *vu.Out) (string, string) {
 				o.Fail("", fmt.Sprintf("parseRFC9218Priority(%q) failed but did not return the default priority", b))
 			}
 			o.Stat(fmt.Sprintf("pparse:ok=%v", ok))
-			return "ok"
+			return fmt.Sprintf("ok %d %d %s", p.urgency, p.incremental, vfB(ok))
 		})
 	case "dump":
 		if len(t) != 1 {
@@ -496,6 +497,11 @@ func (c *vfCase) pop(o *vu.Out) (string, string) {
 		toggleBefore = ws.prioritizeIncremental
 	}
 	ctlBefore := len(c.refCtl)
+	if c.kind == "p9218" && ctlBefore == 0 {
+		// specification (C13.toggle_flips / control_pop_keeps_toggle): the alternation flag flips at every Pop
+		// that reaches the stream queues and ONLY there; Pops that return control frames leave it alone.
+		c.refToggle = !c.refToggle
+	}
 
 	var wr FrameWriteRequest
 	var ok bool
@@ -686,12 +692,14 @@ func (c *vfCase) oracleC13(o *vu.Out, sid uint32, sendable []uint32, toggleBefor
 			otherClass = true
 		}
 	}
-	if ws.prioritizeIncremental == toggleBefore {
-		c.fail(o, "prioritizeIncremental was not flipped by a Pop that reached the stream queues")
+	_ = toggleBefore
+	if ws.prioritizeIncremental != c.refToggle {
+		c.fail(o, fmt.Sprintf("prioritizeIncremental=%v is out of step: it must flip exactly at the Pops that reach the stream queues (reference %v)", ws.prioritizeIncremental, c.refToggle))
 	}
 	if otherClass {
+		// whose turn it is comes from the reference flag, not from the scheduler's own field
 		want := uint8(0)
-		if ws.prioritizeIncremental {
+		if c.refToggle {
 			want = 1
 		}
 		if inc != want {
